@@ -40,6 +40,7 @@ structure Inst where
   outstanding : List Bytes := []
   refused : Bool := false
   timedOut : Bool := false
+  armed : Bool := false            -- a request timeout was configured when the instance was announced
   bang : Bool := false
   modeX : Bool := false
   credStored : Bool := false
@@ -53,6 +54,7 @@ structure Tracker where
   services : List (Bytes × Option Proto) := []   -- configured table: name ↦ protocol
   live : List Inst := []
   ordinals : List (Int × Nat) := []
+  timeout : Nat := 0                             -- `iauth { timeout }` of the live configuration
   deriving Repr
 
 def Tracker.find (t : Tracker) (id : Int) : Option Inst := t.live.find? (·.id == id)
@@ -151,7 +153,8 @@ def onLine (t : Tracker) (raw : Bytes) : Tracker × Expect :=
       if args.length < 4 then (t, {})
       else
         let n := ((t.ordinals.find? (·.1 == l.id)).map (·.2)).getD 0 + 1
-        let i : Inst := { id := l.id, ordinal := n, addrText := args.getD 0 [], portText := args.getD 1 [] }
+        let i : Inst := { id := l.id, ordinal := n, addrText := args.getD 0 [], portText := args.getD 1 [],
+                          armed := t.timeout > 0 }
         ({ (t.put i) with ordinals := (l.id, n) :: t.ordinals.filter (·.1 != l.id) }, {})
     else if cmd == 88 || cmd == 120 then              -- X / x : service reply
       if args.length < 3 || l.id != -1 && (t.find l.id).isNone then (t, {})
@@ -375,6 +378,18 @@ def onOutputs (t0 : Tracker) (ex : Expect) (outs : List Bytes) : Tracker × List
 def stuck (t : Tracker) : List Violation :=
   t.live.filterMap fun i =>
     if ready t i then some ⟨"C03", s!"client {i.id} has everything it needs and no verdict was issued in this step"⟩ else none
+
+/-- the harness was asked to let the request timer of `id` expire and found none pending: an
+    instance announced under a configured timeout that has not expired yet and still waits can
+    then wait for ever (C03) -/
+def unarmed (t : Tracker) (id : Int) (fired : Bool) : List Violation :=
+  if fired then [] else
+  match t.find id with
+  | some i =>
+    if i.armed && !i.timedOut then
+      [⟨"C03", s!"client {id} is still undecided under a configured request timeout, but no timer is pending for it"⟩]
+    else []
+  | none => []
 
 def onTimeout (t : Tracker) (id : Int) (fired : Bool) : Tracker :=
   if !fired then t else
